@@ -15,7 +15,10 @@ from concurrent.futures import ThreadPoolExecutor
 
 VERIF = os.path.dirname(os.path.dirname(os.path.abspath(__file__)))
 REPO = os.environ.get("VERIF_REPO", "/repo")
-BUILD = os.path.join(VERIF, "build")
+BUILD = os.environ.get("VERIF_BUILD_DIR", os.path.join(VERIF, "build"))
+# evidence/ and replays/ are redirected only by tools/mutants.py (sensitivity runs on deliberately broken scratch trees)
+EVID = os.environ.get("VERIF_EVIDENCE_DIR", os.path.join(VERIF, "evidence"))
+REPLAYS = os.environ.get("VERIF_REPLAY_DIR", os.path.join(VERIF, "replays"))
 SIM = os.path.join(VERIF, "sim")
 NCPU = os.cpu_count() or 8
 
@@ -472,16 +475,16 @@ RULE = {
 
 
 def write_evidence(prop, tier, seed, cov, assumptions, wall, nviol):
-    os.makedirs(os.path.join(VERIF, "evidence"), exist_ok=True)
+    os.makedirs(EVID, exist_ok=True)
     ev = dict(property_id=prop, tier=tier, seed=seed, level=LEVEL[prop], coverage=cov, assumptions=assumptions,
               wall_s=round(wall, 2), violations=nviol)
-    with open(os.path.join(VERIF, "evidence", prop + ".json"), "w") as f:
+    with open(os.path.join(EVID, prop + ".json"), "w") as f:
         json.dump(ev, f, indent=1, sort_keys=True)
 
 
 def handle_violations(prop, viols, crashes, builds, known, outdir):
     """Gates, minimisation, known-finding matching. Returns (exit_code, reported list, known-hits dict)."""
-    os.makedirs(os.path.join(VERIF, "replays"), exist_ok=True)
+    os.makedirs(REPLAYS, exist_ok=True)
     reported, known_hits = [], {}
     rc = 0
     seen = set()
@@ -494,7 +497,8 @@ def handle_violations(prop, viols, crashes, builds, known, outdir):
             rc = max(rc, 2)
             continue
         # reconstruct the plan of the crashed run
-        path = os.path.join(outdir, f"crash_{os.path.basename(c['binary'])}_{c['seed']}_{c['run']}.replay")
+        path = os.path.join(outdir, f"crash_{os.path.basename(os.path.dirname(c['binary']))}_{os.path.basename(c['binary'])}_"
+                                    f"{abs(hash(tuple(c['args']))) % 100000}_{c['seed']}_{c['run']}.replay")
         g = subprocess.run([c["binary"], "--gen", "x"] + c["args"] + ["--seed", str(c["seed"]), "--run", str(c["run"])],
                            stdout=subprocess.PIPE, text=True)
         open(path, "w").write(g.stdout)
@@ -515,8 +519,19 @@ def handle_violations(prop, viols, crashes, builds, known, outdir):
             log(f"HARNESS-FAULT {prop}: detection at run {v['run']} did not reproduce in the same process")
             rc = max(rc, 2)
             continue
-        final = os.path.join(VERIF, "replays", f"{prop}_{v['cls']}_{v['seed']}_{v['run']}.replay")
+        final = os.path.join(REPLAYS, f"{prop}_{v['cls']}_{v['seed']}_{v['run']}.replay")
         r0 = replay(v["binary"], v["file"])
+        if r0["verdict"] == "violation" and r0["cls"] != v["cls"]:
+            # The fresh process violates the property too, but is classified differently (typically the TSan build,
+            # where the runtime reports the race this time, or reported it first last time). Still a violation of the
+            # same plan: continue with the class the replay shows, provided it is not a listed known finding.
+            if match_known(prop, r0["cls"], r0["sig"], known) is not None:
+                log(f"HARNESS-FAULT {prop}: replay of {v['file']} shows only the known finding {r0['cls']}/{r0['sig']}, not {v['cls']}")
+                rc = max(rc, 2)
+                continue
+            log(f"[note] fresh-process replay classifies run {v['run']} as {r0['cls']} (in-batch: {v['cls']}); using the replayed class")
+            v = dict(v, cls=r0["cls"], sig=r0["sig"])
+            final = os.path.join(REPLAYS, f"{prop}_{v['cls']}_{v['seed']}_{v['run']}.replay")
         if not (r0["verdict"] == "violation" and r0["cls"] == v["cls"]):
             log(f"HARNESS-FAULT {prop}: replay of {v['file']} in a fresh process gave {r0['verdict']}/{r0['cls']} instead of {v['cls']}")
             rc = max(rc, 2)
@@ -533,7 +548,8 @@ def handle_violations(prop, viols, crashes, builds, known, outdir):
             log(f"[detail] {r1['detail'][:1200]}")
         log(f"VIOLATION property={prop} replay={final}")
         reported.append(dict(cls=v["cls"], sig=r1["sig"], replay=final))
-        rc = max(rc, 1)
+    if reported:
+        rc = 1  # a confirmed, replayable violation outranks a harness fault on some other detection
     return rc, reported, known_hits
 
 
@@ -551,7 +567,8 @@ def run_property(prop, tier):
     total = Batch()
     per_cfg = {}
     for variant, eng, args, secs, tag in cfgs:
-        b = run_batch(os.path.join(builds[variant], eng), args, seed, secs, outdir, tag)
+        # one directory per configuration: replay files are named by (seed, run) only
+        b = run_batch(os.path.join(builds[variant], eng), args, seed, secs, os.path.join(outdir, tag), tag)
         per_cfg[tag] = dict(variant=variant, engine=eng, args=" ".join(args), runs=len(b.runs), wall_s=round(b.wall, 1),
                             runs_per_hour=int(len(b.runs) / max(b.wall, 0.01) * 3600), violations=len(b.viol), crashes=len(b.crashes))
         log(f"[run] {tag}: {len(b.runs)} runs in {b.wall:.1f}s, {len(b.viol)} detections, {len(b.crashes)} crashes")
@@ -616,8 +633,8 @@ def run_c18(tier, seed):
     outdir = os.path.join(BUILD, "out", "C18")
     shutil.rmtree(outdir, ignore_errors=True)
     os.makedirs(outdir, exist_ok=True)
-    per_worker = 2500 if tier == "quick" else 60000
-    workers = 3 if tier == "quick" else 3
+    per_worker = 50000 if tier == "quick" else 1500000
+    workers = 3
     res = {}
     with ThreadPoolExecutor(max_workers=len(C18_VARIANTS)) as ex:
         futs = {v: ex.submit(run_batch, os.path.join(builds[v], "e4"), [], seed, 3600, outdir, "c18_" + v, workers, per_worker)
@@ -640,7 +657,7 @@ def run_c18(tier, seed):
         for run, (h, ok, nt, ops, kv) in b.runs.items():
             if run in ref.runs and ref.runs[run][0] != h:
                 diverged.append((run, v, "hash"))
-    os.makedirs(os.path.join(VERIF, "replays"), exist_ok=True)
+    os.makedirs(REPLAYS, exist_ok=True)
     seen = set()
     for run, v, why in sorted(diverged)[:3]:
         if (v, why) in seen:
@@ -674,7 +691,7 @@ def run_c18(tier, seed):
                     lines = cand
                     changed = True
                     break
-        final = os.path.join(VERIF, "replays", f"C18_build-divergence_{seed}_{run}_{v}.replay")
+        final = os.path.join(REPLAYS, f"C18_build-divergence_{seed}_{run}_{v}.replay")
         write_plan(final, lines + [f"expect class=build-divergence sig=plain-vs-{v}:{why}"])
         if match_known("C18", "build-divergence", f"plain-vs-{v}:{why}", known):
             continue
@@ -682,6 +699,8 @@ def run_c18(tier, seed):
         log(f"VIOLATION property=C18 replay={final}")
         reported.append(dict(cls="build-divergence", sig=f"plain-vs-{v}:{why}", replay=final))
         rc = max(rc, 1)
+    if reported:
+        rc = 1
     for k in known:
         if k["prop"] == "C18":
             log(f"KNOWN-FINDING: property=C18 {k['desc']}")
